@@ -14,11 +14,11 @@ THEOREMS = ["Cog.Builder." + t for t in [
     "C17_builder_rule_preserves", "C17_option_rule_preserves", "C17_seq", "C17_seq_counterexample",
     "C17_seq_counterexample_shared_pointer", "C17_seq_counterexample_unfold_after_index",
     "C17_frame_norules_partial", "C17_frame_norules_counterexample", "C17_frame_counterexample_shared_pointer",
-    "C17_option_frame", "C17_option_frame_counterexample",
+    "C17_option_frame", "C17_option_frame_counterexample", "C17_seq_counterexample_sf_opts_after_append",
 ]]
 PROPOSED = os.path.join(WORK, "proposed_findings_C17.json")
 WITNESSES = ["dup-option-default", "dup-builder-default", "dismissed", "rename-args-constraint",
-             "promote-array-to-append", "merge-rename-arguments", "map-index-unfold"]
+             "promote-array-to-append", "merge-rename-arguments", "map-index-unfold", "sf-opts-after-append"]
 FILES = HARNESS_BASE + ["vir_builders.go", "c16_*.go", "c17_*.go"]
 
 
